@@ -24,6 +24,7 @@ type tableFeat struct {
 	Rows       int    `json:"rows"`
 	Cols       int    `json:"cols"`
 	Short      bool   `json:"short"`
+	LateWide   bool   `json:"latewide"`
 	Header     string `json:"header"`
 	CellAttr   string `json:"cellAttr"`
 	Summary    bool   `json:"summary"`
@@ -34,7 +35,7 @@ func featOf(c Case) tableFeat {
 	return tableFeat{
 		Editable: c.boolean("editable", false), Role: c.str("role", "none"), DescRole: c.str("descRole", "none"),
 		Datatable0: c.boolean("datatable0", false), Nested: c.boolean("nested", false), Rows: c.num("rows", 2),
-		Cols: c.num("cols", 2), Short: c.boolean("short", false), Header: c.str("header", "none"),
+		Cols: c.num("cols", 2), Short: c.boolean("short", false), LateWide: c.boolean("latewide", false), Header: c.str("header", "none"),
 		CellAttr: c.str("cellAttr", "none"), Summary: c.boolean("summary", false), Object: c.str("object", "none"),
 	}
 }
@@ -59,10 +60,14 @@ func buildTable(f tableFeat, g *docGen) string {
 	rows := make([][]*cell, f.Rows)
 	var tds []*cell
 	shortApplies := f.Short && f.Cols > 1 && f.Rows >= 3
+	lateWide := f.LateWide && !f.Short && f.Cols > 1 && f.Rows >= 2
 	for i := 0; i < f.Rows; i++ {
 		n := f.Cols
 		if shortApplies && i == f.Rows-1 {
 			n--
+		}
+		if lateWide && i < f.Rows-1 {
+			n = 1
 		}
 		if f.Header == "rowth" {
 			// a header cell in front of every row (key / value tables): columns are counted in td cells
@@ -79,12 +84,13 @@ func buildTable(f tableFeat, g *docGen) string {
 	if len(tds) > 0 {
 		first, last := tds[0], tds[len(tds)-1]
 		switch f.CellAttr {
+		// the attribute counts, whatever its value - also none at all
 		case "abbr":
-			first.attrs += ` abbr="zqa"`
+			first.attrs += pickS(r, ` abbr="zqa"`, ` abbr="zqa"`, ` abbr=""`)
 		case "headers":
-			first.attrs += ` headers="zqh"`
+			first.attrs += pickS(r, ` headers="zqh"`, ` headers="zqh"`, ` headers=""`, ` headers`)
 		case "scope":
-			first.attrs += ` scope="` + pickS(r, "col", "row") + `"`
+			first.attrs += pickS(r, ` scope="col"`, ` scope="row"`, ` scope=""`, ` scope`)
 		case "loneAbbr":
 			first.inner = "<abbr>" + first.inner + "</abbr>"
 		}
@@ -131,7 +137,7 @@ func buildTable(f tableFeat, g *docGen) string {
 		sb.WriteString(` datatable="0"`)
 	}
 	if f.Summary {
-		sb.WriteString(` summary="zqs summary"`)
+		sb.WriteString(pickS(r, ` summary="zqs summary"`, ` summary="zqs summary"`, ` summary=""`, ` summary`))
 	}
 	sb.WriteString(">")
 	switch f.Header {
